@@ -149,7 +149,9 @@ func PEP440(quick bool) []string {
 		// numeric local segments with leading zeros compare by value
 		"1.0+01", "1.0+007", "1.0+8", "1.0+2024.01", "1.0+2024.2", "1.0a1+00", "1.0a1+0", "1.0+0", "1.0+00.1", "1.0+0.01",
 		// local labels mixing the three separators
-		"1.0+ubuntu-1_2", "1.0+ubuntu.1.2", "1.0+a_b-c", "1.0+a-b_c", "1.0+a.b-c_d", "1.0+1-2_3", "1.0+a-b", "1.0+a_b", "1.0+a.b", "1.0.post1+x_y-z", "1!1.0a1+u-1_2")
+		"1.0+ubuntu-1_2", "1.0+ubuntu.1.2", "1.0+a_b-c", "1.0+a-b_c", "1.0+a.b-c_d", "1.0+1-2_3", "1.0+a-b", "1.0+a_b", "1.0+a.b", "1.0.post1+x_y-z", "1!1.0a1+u-1_2",
+		// numeric local segments beyond 64 bits
+		"1.0+100000000000000000000", "1.0+99999999999999999999", "1.0+18446744073709551616", "1.0+18446744073709551615", "1.0+100000000000000000000.1")
 	return dedup(out)
 }
 
@@ -172,6 +174,14 @@ func RubyGems(quick bool) []string {
 // shapes that only the totality/canon clauses use.
 func Maven(quick bool) (inDomain, outOfDomain []string) {
 	numeric := []string{"1", "1.0", "1.0.0", "1.1", "1.0.1", "2", "0", "1.10", "0.1", "1.00", "1.01", "01", "1.0.02"}
+	// numbers introduced by a dash (build numbers): 2.0-3 against 2.0.1 and 2.0.3
+	var dashNums []string
+	for _, n := range []string{"1", "1.0", "2.0", "1.1"} {
+		for _, d := range []string{"-1", "-2", "-3", "-10", "-0"} {
+			dashNums = append(dashNums, n+d)
+		}
+	}
+	dashNums = append(dashNums, "2.0.1", "2.0.3", "2.0.2", "1.0.2", "1.0.3", "1.1.1", "1.0.10")
 	qual := []string{"alpha", "a", "beta", "b", "milestone", "m", "rc", "cr", "snapshot", "sp", "foo", "xyz", "ALPHA", "RC", "Beta"}
 	num := []string{"", "1", "2", "10", "-1"}
 	snap := []string{"", "-SNAPSHOT"}
@@ -197,7 +207,8 @@ func Maven(quick bool) (inDomain, outOfDomain []string) {
 			outOfDomain = append(outOfDomain, n+"."+q, n+"."+q+"1", n+"."+q+".1", n+q, n+q+"1")
 		}
 	}
-	outOfDomain = append(outOfDomain, "", "-", ".", "1-", "1.", "1..0", "1--a", "a", "1-1", "1-1-1", "1.0-1", "1_0", "1-a.b", "1-a-b-c", "1-0", "1-00", "1.0.0.0.0", "1-alpha-beta", "01", "1.01", "٣", "1-é")
+	inDomain = append(inDomain, dashNums...)
+	outOfDomain = append(outOfDomain, "", "-", ".", "1-", "1.", "1..0", "1--a", "a", "1-1-1", "1_0", "1-a.b", "1-a-b-c", "1-0", "1-00", "1.0.0.0.0", "1-alpha-beta", "01", "1.01", "٣", "1-é")
 	return dedup(inDomain), dedup(outOfDomain)
 }
 
